@@ -18,6 +18,7 @@ RULE = (
     "method x 10 class schemes; generated: trees <= 30 nodes with random class mixes, targets and attributes. Non-trivial = >= 4 nodes and "
     "(entry is not the root or the tree contains a symlink). Enumerated distinct by construction; generated hashed."
     ' Also: trees rearranged by moves before copying; a LightNodeMixin class with a plain-string __slots__; an original node moved below the copy of its former parent.'
+    ' Also: links to LightNodeMixin targets, a class-level-target link class with a __setstate__ target class, _parent/_children as user data, a private slot on an underscore-named class.'
 )
 ASSUMPTIONS = [
     "protocols 0 and 1 are only used for classes without __slots__ (restriction of Python itself, as the statement says)",
